@@ -17,7 +17,9 @@ type GoZdate struct {
 	Day   uint8
 }
 
-type GoZdata struct{ Data []byte }
+type GoZdata struct {
+	Data []byte `verif:"alias"`
+}
 
 type GoPlaneBase struct {
 	Name     string
@@ -68,7 +70,7 @@ type GoZ struct {
 
 	Bool bool
 	Text string
-	Blob []byte
+	Blob []byte `verif:"alias"`
 
 	F64vec []float64
 	F32vec []float32
@@ -82,7 +84,7 @@ type GoZ struct {
 	U8vec  []uint8
 
 	Boolvec []bool
-	Datavec [][]byte
+	Datavec [][]byte `verif:"alias"`
 	Textvec []string
 
 	Zvec    []*GoZ
@@ -121,8 +123,8 @@ type GoCounter struct {
 }
 
 type GoHoldsText struct {
-	Txt    []byte
-	Lst    [][]byte
+	Txt    []byte   `verif:"alias"`
+	Lst    [][]byte `verif:"alias"`
 	Lstlst [][]string
 }
 
@@ -154,12 +156,15 @@ func PogsExtract(t Typed, s capnp.Struct) (interface{}, error) {
 	return v, err
 }
 
-// ByteSlices calls f for every non-empty []byte reachable in v (visiting at
-// most `budget` values).
+// ByteSlices calls f for every non-empty byte slice in v that pogs documents
+// as pointing into the original segment (Data fields and Text fields
+// extracted into []byte; they carry the struct tag verif:"alias" above).
+// Slices extracted from List(UInt8) are copies and are not reported.  At
+// most `budget` values are visited.
 func ByteSlices(v interface{}, budget int, f func([]byte)) {
 	n := budget
-	var walk func(x reflect.Value, depth int)
-	walk = func(x reflect.Value, depth int) {
+	var walk func(x reflect.Value, depth int, alias bool)
+	walk = func(x reflect.Value, depth int, alias bool) {
 		if n <= 0 || depth > 80 {
 			return
 		}
@@ -167,7 +172,7 @@ func ByteSlices(v interface{}, budget int, f func([]byte)) {
 		switch x.Kind() {
 		case reflect.Ptr:
 			if !x.IsNil() {
-				walk(x.Elem(), depth+1)
+				walk(x.Elem(), depth+1, false)
 			}
 		case reflect.Struct:
 			t := x.Type()
@@ -175,11 +180,11 @@ func ByteSlices(v interface{}, budget int, f func([]byte)) {
 				return
 			}
 			for i := 0; i < x.NumField(); i++ {
-				walk(x.Field(i), depth+1)
+				walk(x.Field(i), depth+1, t.Field(i).Tag.Get("verif") == "alias")
 			}
 		case reflect.Slice:
 			if x.Type().Elem().Kind() == reflect.Uint8 {
-				if x.Len() > 0 {
+				if alias && x.Len() > 0 {
 					f(x.Bytes())
 				}
 				return
@@ -189,9 +194,9 @@ func ByteSlices(v interface{}, budget int, f func([]byte)) {
 				return
 			}
 			for i := 0; i < x.Len() && n > 0; i++ {
-				walk(x.Index(i), depth+1)
+				walk(x.Index(i), depth+1, alias)
 			}
 		}
 	}
-	walk(reflect.ValueOf(v), 0)
+	walk(reflect.ValueOf(v), 0, false)
 }
